@@ -314,6 +314,71 @@ def gen_case(rng):
     return q
 
 
+def gen_overlap_case(rng):
+    """Dedicated stream: the same field reachable from a deferred fragment A and from a fragment B nested
+    one or two defers deep inside another deferred fragment P (A and P siblings at the same object), with
+    independent awaitable gates on the fragments' own fields -- so that an execution group shared by A and B
+    can complete while B is not yet announced, in some completion orders and not in others."""
+    base = rng.choice([0, 0, 1])  # level of the object that carries A and P
+    f = rng.choice(["o1", "o2", "l1", "l2", "l4"])  # shared object / list-of-objects field
+    x, y, z = rng.sample(["s1", "s2", "s3", "i1"], 3)  # leaves one level below
+    own = rng.sample(["s1", "s2", "s3", "i1"], 3)  # own fields of A, P and of the mid-level fragment
+    labels = iter(["A", "P", "B", "M", "C"])
+
+    def defer(label):
+        args = [f'label: "{label}"'] if rng.random() < 0.8 else []
+        return f" {D0}@defer" + (f"({', '.join(args)})" if args else "") + D1
+
+    nested_depth = rng.choice([1, 1, 2])
+    b_body = f"{x}" + (f" {z}" if rng.random() < 0.4 else "")
+    b = f"...{defer('B')} {{ {b_body} }}"
+    if nested_depth == 2:
+        b = f"...{defer('M')} {{ {z} {b} }}"
+    a_sub = f"{x}" + (f" {y}" if rng.random() < 0.3 else "")
+    a_own = f"{own[0]} " if rng.random() < 0.6 else ""
+    frag_a = f"...{defer('A')} {{ {a_own}{f} {{ {a_sub} }} }}"
+    p_inner = f"{y} {b}" if rng.random() < 0.8 else b
+    frag_p = f"...{defer('P')} {{ {own[1]} {f} {{ {p_inner} }} }}"
+    parts = [frag_a, frag_p]
+    if rng.random() < 0.3:  # a third sibling fragment sharing the field as well
+        parts.append(f"...{defer('C')} {{ {f} {{ {z} }} }}")
+    rng.shuffle(parts)
+    if rng.random() < 0.5:
+        parts.insert(rng.randrange(len(parts) + 1), own[2])
+    body = "{ " + " ".join(parts) + " }"
+    wrapper = rng.choice(["o1", "o2"])
+    full = body if base == 0 else f"{{ {wrapper} {body} }}"
+
+    def val(name, p):
+        v = 7 if name == "i1" else f"{name}-v"
+        return {"$async": v} if rng.random() < p else v
+
+    def child():
+        return {x: val(x, 0.35), y: val(y, 0.35), z: val(z, 0.25)}
+
+    obj = {own[0]: val(own[0], 0.5), own[1]: val(own[1], 0.8), own[2]: val(own[2], 0.2)}
+    if f.startswith("o"):
+        obj[f] = child() if rng.random() < 0.8 else {"$async": child()}
+    else:
+        obj[f] = [child() for _ in range(rng.choice([1, 2]))]
+    data = obj if base == 0 else {wrapper: obj}
+    noprop = rng.random() < 0.15
+    np_dir = " @experimental_disableErrorPropagation"
+    stripped = _strip(full)
+    return {
+        "query": "query Q" + (np_dir if noprop else "") + " " + full.replace(D0, "").replace(D1, ""),
+        "stripped": "query Q" + (np_dir if noprop else "") + " " + stripped,
+        "ref0": "query Q" + np_dir + " " + stripped,
+        "noprop": noprop,
+        "streams": {},
+        "variables": {},
+        "n_defer": 3,
+        "n_stream": 0,
+        "data": data,
+        "overlap_stream": True,
+    }
+
+
 # ----------------------------------------------------------------------------- JSON -> driver tokens
 
 
